@@ -151,6 +151,11 @@ def c03(ctx):
     results = results + sres
     cov["suite_trace"] = dict(records=core.count_lines(st), tests="all" if not quick else "all but TestConcurrent")
     violations = _replay_violations(srep, prop) + _tree_violations(results, prop)
+    from .textfam import clonehist
+    ch = clonehist(ctx, 2 if quick else 3)
+    violations += [v for v in ch["violations"] if v["property"] == prop]
+    cov["clone_histories"] = dict(histories=ch["extra"]["histories"], detections=ch["evaluations"], drift=ch["drift"],
+                                  rule="CloneHist.tla: every history of detections / extensions, each in a fresh process; the reported chain must be the path of the (extended) tree whatever was detected before")
     if not quick:
         violations += _replay_violations(_sim_replay(ctx, cov, "P1", 6, 40000, 60, False, "seq6"), prop)
     cov.update(
